@@ -678,7 +678,59 @@ def rule_ctor_copies_containers_(ctx: Ctx, rep: Report) -> None:
     rule_ctor_copies_containers(ctx, rep, "C11.ctor_copies_containers", ('btclib.psbt', 'btclib.tx'), 15)
 
 
+def rule_global_fields_compared_flat(ctx: Ctx, rep: Report) -> None:
+    """C11.global_fields_compared_flat: in `assert_signatures_only` each global field
+    that is not a signature is compared `returned.F != request.F`, and that
+    comparison is the whole test: it holds for an *added* value (None in the
+    request, something in the answer) as it does for a changed one. A
+    comparison that runs only where the request had a value lets a signer add
+    a signed message, a share or a proof the coordinator never asked for."""
+    rule = "C11.global_fields_compared_flat"
+    fi = ctx.func(f"{P}.assert_signatures_only")
+    ps = fi.params()
+    n = 0
+    for i in own_nodes(fi.node):
+        if not (isinstance(i, ast.If) and any(isinstance(x, ast.Raise) for x in i.body)):
+            continue
+        cmps = [c for c in ast.walk(i.test) if isinstance(c, ast.Compare) and isinstance(c.ops[0], ast.NotEq) and all(isinstance(s_, ast.Attribute) and isinstance(s_.value, ast.Name) and s_.value.id in ps for s_ in (c.left, c.comparators[0]))
+                and c.left.attr == c.comparators[0].attr]
+        if not cmps:
+            continue
+        n += 1
+        flat = i.test is cmps[0]
+        rep.ob(rule, f"assert_signatures_only:{cmps[0].left.attr}", flat, fi.where(i), f"`{norm(cmps[0])}` is the whole test" if flat else
+               f"`{norm(i.test)[:90]}` compares `{cmps[0].left.attr}` only under another condition: a value the answer adds where the request had none is accepted")
+    rep.floor(rule, 3)
+
+
+def rule_taproot_type_defaults_to_default(ctx: Ctx, rep: Report) -> None:
+    """C11.taproot_type_defaults_to_default: a taproot input that states no sig_hash
+    type asks for SIGHASH_DEFAULT -- that is what `sign` signs with and what the
+    Finalizer expects -- so a taproot signature is checked against
+    `psbt_in.sig_hash_type or DEFAULT` (or its is-None spelling with DEFAULT as
+    the other arm): absence is a *value*, not a wildcard. Read as "no
+    constraint", a 65-byte signature of SIGHASH_NONE|ANYONECANPAY on an input
+    that asked for nothing is an accepted answer."""
+    rule = "C11.taproot_type_defaults_to_default"
+    fi = ctx.func(f"{P}._assert_taproot_sig_hash_type")
+    tests = [i for i in own_nodes(fi.node) if isinstance(i, ast.If) and any(isinstance(x, ast.Raise) for x in i.body) and "sig_hash_type" in str(norm(i.test))]
+    if not tests:
+        rep.ob(rule, "_assert_taproot_sig_hash_type:test", False, fi.where(), "no refusal on the stated sig_hash type")
+        return
+    for i in tests:
+        t = i.test
+        names = {x.id for x in ast.walk(t) if isinstance(x, ast.Name)} | {x.attr for x in ast.walk(t) if isinstance(x, ast.Attribute)}
+        wildcard = isinstance(t, ast.BoolOp) and isinstance(t.op, ast.And) and any(isinstance(v, ast.Compare) and isinstance(v.ops[0], ast.IsNot) and isinstance(v.comparators[0], ast.Constant) and v.comparators[0].value is None for v in t.values)
+        ok = "DEFAULT" in names and not wildcard
+        rep.ob(rule, "_assert_taproot_sig_hash_type:absent_means_default", ok, fi.where(i), "an absent type is compared as SIGHASH_DEFAULT" if ok else
+               f"`{norm(t)[:80]}`: an input that states no type accepts a signature of any type")
+    rep.floor(rule, 1)
+
+
 RULES = [
+    ("C11.global_fields_compared_flat", rule_global_fields_compared_flat),
+    ("C11.taproot_type_defaults_to_default", rule_taproot_type_defaults_to_default),
+
     ("C11.ctor_copies_containers", rule_ctor_copies_containers_),
 
     ("C11.identifier_fields", rule_identifier_fields),
